@@ -163,7 +163,9 @@ structure Peer where
   unchoked : Bool := false
   fast : List Nat := []
   bmNil : Bool := true
-  bits : List Bool := []
+  bits : List Bool := []      -- grows on demand, like bitmap.Bitmap (bits beyond the end are clear)
+  hasInfo : Bool := true      -- peer.Info != nil
+  isSeed : Bool := false      -- peer.isSeed (matters only while the metadata is unknown)
   queue : List Req := []
   requested : List Req := []
   evq : List PeerEv := []     -- p.Event
@@ -192,7 +194,12 @@ def setBits (n : Nat) (l : List Nat) : List Bool :=
 def bitList (bits : List Bool) : List Nat :=
   (List.range bits.length).filter (fun i => getB bits i)
 
-def setBit (bits : List Bool) (i : Nat) (v : Bool) : List Bool := setN bits i v
+/-- `Bitmap.Set` extends the bitmap, `Bitmap.Reset` beyond the end is a no-op -/
+def setBit (bits : List Bool) (i : Nat) (v : Bool) : List Bool :=
+  if v then setN (bits ++ List.replicate (i + 1 - bits.length) false) i true else setN bits i false
+
+/-- accepted piece index of a Have / AllowedFast while the metadata is unknown (`maxPieces`) -/
+def maxPieces : Nat := 8388608
 
 /-- `maybeRequest(peer)` loop -/
 def maybeRequestLoop (g : Geom) (slow : Bool) : Nat → Peer → List TorEv → Peer × List TorEv
@@ -346,12 +353,16 @@ structure State where
   under : Bool := false      -- an inFlight decrement found 0 ("Eek!  InFlight underflow.")
   aunder : Bool := false     -- an available decrement found 0
   panicked : Bool := false   -- Go would have faulted (index out of range)
+  hasMeta : Bool := true     -- t.infoComplete (`inFlight` / `pieces` below are meaningful only then)
   blocked : Bool := false    -- a blocking channel send would not have returned
 deriving Repr, Inhabited
 
 def init (g : Geom) (tcap : Nat) : State :=
   { g := g, inFlight := List.replicate g.nchunks 0, tcap := tcap,
     pieces := (List.range g.npieces).map (fun i => { bits := List.replicate (g.pieceChunks i) false }) }
+
+/-- a magnet torrent: the geometry `g` becomes known only with the `metaComplete` step -/
+def initMagnet (g : Geom) (tcap : Nat) : State := { init g tcap with hasMeta := false }
 
 /-- `noteInFlight(t, c, true)` -/
 def incr (s : State) (c : Nat) : State :=
@@ -433,6 +444,7 @@ inductive Op where
   | wWrite (w : Nat) (n : Nat)
   | wClose (w : Nat)
   | finalise (idx : Nat)
+  | metaComplete                         -- the TorMetaData that completes the metadata
 deriving Repr, Inhabited
 
 /-- what a step reports (printed by the driver) -/
@@ -459,6 +471,13 @@ def delRequested (p : Peer) (c : Nat) : Option Peer :=
   | some j => some { p with requested := swapRemove p.requested j }
   | none => none
 
+/-- the piece indices a Have / AllowedFast may name -/
+def idxBound (g : Geom) (p : Peer) : Nat := if p.hasInfo then g.npieces else maxPieces
+
+/-- length of the bitmap a Bitfield message installs -/
+def bfLen (g : Geom) (p : Peer) (bs : List Nat) : Nat :=
+  if p.hasInfo then g.npieces else bs.foldl max 0 + 1
+
 /-- `retract` = the `if peer.bitmap != nil { writeEvent(TorPeerBitmap{…, false}) }` prefix of the
     Bitfield / HaveAll / HaveNone handlers -/
 def retract (i : Nat) (p : Peer) : List TorEv :=
@@ -480,38 +499,45 @@ def handleMsg (g : Geom) (pieces : List PieceSt) (i : Nat) (p : Peer) (m : Msg) 
         false, pieces, "choke")
   | .unchoke => ({ p with unchoked := true }, [.unchoke i true], false, pieces, "unchoke")
   | .haveMsg x =>
-    if x ≥ g.npieces then (p, [], true, pieces, "have-range")
+    if x ≥ idxBound g p then (p, [], true, pieces, "have-range")
     else if !getB p.bits x then
       ({ p with bits := setBit p.bits x true, bmNil := false }, [.phave i x true], false, pieces, "have")
     else (p, [], false, pieces, "have-redundant")
   | .bitfield bs =>
-    if bs.any (fun x => decide (x ≥ g.npieces)) then (p, [], true, pieces, "bitfield-overlong")
+    -- (the length check needs the metadata; before it any bitfield is taken as it comes)
+    if p.hasInfo && bs.any (fun x => decide (x ≥ g.npieces)) then (p, [], true, pieces, "bitfield-overlong")
     else
-      ({ p with bits := setBits g.npieces bs, bmNil := false },
-        retract i p ++ [.bitmap i (bitList (setBits g.npieces bs)) true], false, pieces,
+      ({ p with bits := setBits (bfLen g p bs) bs, bmNil := false },
+        retract i p ++ [.bitmap i (bitList (setBits (bfLen g p bs) bs)) true], false, pieces,
         if p.bmNil then "bitfield" else "bitfield-change")
   | .haveAll =>
     if !p.canFast then (p, [], true, pieces, "haveall-nofast")
-    else
-      ({ p with bits := List.replicate g.npieces true, bmNil := false },
+    else if p.hasInfo then
+      ({ p with bits := List.replicate g.npieces true, bmNil := false, isSeed := true },
         retract i p ++ [.bitmap i (bitList (List.replicate g.npieces true)) true], false, pieces,
         if p.bmNil then "haveall" else "haveall-change")
+    else
+      -- metadata unknown: remember `isSeed`, the bitmap is filled in by PeerMetadataComplete
+      ({ p with bits := [], bmNil := true, isSeed := true }, retract i p, false, pieces,
+        if p.bmNil then "haveall-nometa" else "haveall-nometa-change")
   | .haveNone =>
     if !p.canFast then (p, [], true, pieces, "havenone-nofast")
     else
-      ({ p with bits := List.replicate g.npieces false, bmNil := true }, retract i p, false, pieces,
+      ({ p with bits := [], bmNil := true, isSeed := false }, retract i p, false, pieces,
         if p.bmNil then "havenone" else "havenone-change")
   | .dontHave x =>
-    if x ≥ g.npieces then (p, [], true, pieces, "donthave-range")
+    if p.isSeed && !p.hasInfo then (p, [], true, pieces, "donthave-seed")
+    else if p.hasInfo && decide (x ≥ g.npieces) then ({ p with isSeed := false }, [], true, pieces, "donthave-range")
     else if getB p.bits x then
-      ({ p with bits := setBit p.bits x false }, [.phave i x false], false, pieces, "donthave")
-    else (p, [], false, pieces, "donthave-redundant")
+      ({ p with bits := setBit p.bits x false, isSeed := false }, [.phave i x false], false, pieces, "donthave")
+    else ({ p with isSeed := false }, [], false, pieces, "donthave-redundant")
   | .allowedFast x =>
-    if !p.canFast then (p, [], true, pieces, "allowedfast-nofast")
+    if !p.canFast || decide (x ≥ idxBound g p) then
+      (p, [], true, pieces, "allowedfast-nofast")
     else if p.fast.contains x then (p, [], false, pieces, "allowedfast-dup")
     else ({ p with fast := p.fast ++ [x] }, [], false, pieces, "allowedfast")
   | .reject idx begin =>
-    if !p.canFast then (p, [], true, pieces, "reject-nofast")
+    if !p.canFast || !p.hasInfo then (p, [], true, pieces, "reject-nofast")
     else
       let c := toChunk g idx begin
       match delRequested p c with
@@ -522,7 +548,7 @@ def handleMsg (g : Geom) (pieces : List PieceSt) (i : Nat) (p : Peer) (m : Msg) 
         let r := maybeRequest g slow p []
         (r.1, r.2, false, pieces, "reject-unknown")
   | .piece idx begin len =>
-    if idx ≥ g.npieces then (p, [], true, pieces, "piece-range")
+    if !p.hasInfo || decide (idx ≥ g.npieces) then (p, [], true, pieces, "piece-range")
     else
       let c := toChunk g idx begin
       match delReq p c with
@@ -545,16 +571,28 @@ def handleMsg (g : Geom) (pieces : List PieceSt) (i : Nat) (p : Peer) (m : Msg) 
               else if len > chunkSize g c then "piece-drop-long" else "piece-drop-refused")
 
 /-- `handleEvent(peer, e)` -/
-def handlePeerEv (g : Geom) (p : Peer) (e : PeerEv) (slow : Bool) : Peer × List TorEv × Bool :=
+def handlePeerEv (g : Geom) (i : Nat) (p : Peer) (e : PeerEv) (slow : Bool) : Peer × List TorEv × Bool :=
   match e with
   | .request cs =>
+    if !p.hasInfo then (p, [], true) else   -- ErrMetadataIncomplete
     let r := enqueueAll g cs p []
     let r2 := maybeRequest g slow r.1 r.2
     (r2.1, r2.2, false)
-  | .cancel c => let r := cancelChunk g p c []; (r.1, r.2, false)
-  | .cancelPiece idx => let r := cancelPieceLoop g idx g.cpp 0 p []; (r.1, r.2, false)
+  | .cancel c => if !p.hasInfo then (p, [], true) else let r := cancelChunk g p c []; (r.1, r.2, false)
+  | .cancelPiece idx =>
+    if !p.hasInfo then (p, [], true) else let r := cancelPieceLoop g idx g.cpp 0 p []; (r.1, r.2, false)
   | .done => (p, [], true)
-  | .metadata => (p, [], true)
+  | .metadata =>
+    -- PeerMetadataComplete
+    if p.hasInfo then (p, [], true)                       -- "duplicate metadata"
+    else if p.isSeed then
+      if !p.bmNil then ({ p with hasInfo := true }, [], true)   -- "inconsistent bitmap with incomplete metadata"
+      else
+        ({ p with hasInfo := true, bits := List.replicate g.npieces true, bmNil := false },
+          [.bitmap i (bitList (List.replicate g.npieces true)) true], false)
+    else if (bitList p.bits).any (fun x => decide (x ≥ g.npieces)) then
+      ({ p with hasInfo := true }, [], true)              -- "overlong bitfield"
+    else ({ p with hasInfo := true }, [], false)
 
 /-- the deferred exit path of `Run`: `Clear(true, drop)`, `TorPeerBitmap(false)`, `TorPeerGoaway` -/
 def exitEvents (g : Geom) (i : Nat) (p : Peer) : List TorEv :=
@@ -579,6 +617,10 @@ def dataLoop (except : Option Nat) : List Nat → State → State
     let s1 := decr s c
     let s2 := if getN s1.inFlight c > 0 then { s1 with peers := castCancel except c 0 s1.peers } else s1
     dataLoop except cs s2
+
+/-- `writePeers(t, PeerMetadataComplete{…}, nil)` to the peers whose loop still runs -/
+def castMeta (l : List Peer) : List Peer :=
+  l.map (fun p => if p.present && p.alive then { p with evq := p.evq ++ [.metadata] } else p)
 
 def needRoom (s : State) (except : Option Nat) (n : Nat) : Bool :=
   (List.range s.peers.length).all (fun i =>
@@ -622,7 +664,7 @@ def step (s : State) (op : Op) : State × Res :=
   if s.panicked then (s, .panic) else
   match op with
   | .connect fast evcap wcap =>
-    ({ s with peers := s.peers ++ [{ canFast := fast, evcap := evcap, wcap := wcap,
+    ({ s with peers := s.peers ++ [{ canFast := fast, evcap := evcap, wcap := wcap, hasInfo := s.hasMeta,
                                       bits := List.replicate s.g.npieces false }] }, .ok)
   | .request i cs afterDone =>
     match s.peers[i]? with
@@ -631,7 +673,7 @@ def step (s : State) (op : Op) : State × Res :=
       if !p.present then (s, .bad)
       -- (a chunk number beyond the torrent would make `t.inFlight[c]` fault in Go: the real
       --  scheduler only produces valid ones, the model refuses the op)
-      else if cs.any (fun c => decide (c ≥ s.g.nchunks)) then (s, .bad)
+      else if !s.hasMeta || cs.any (fun c => decide (c ≥ s.g.nchunks)) then (s, .bad)
       else
         -- maybeWritePeer: select { p.Event <- e ; <-p.Done ; default }
         let room := decide (p.evq.length < p.evcap)
@@ -657,7 +699,7 @@ def step (s : State) (op : Op) : State × Res :=
       match p.evq with
       | [] => (s, .none)
       | e :: rest =>
-        let r := handlePeerEv s.g { p with evq := rest } e slow
+        let r := handlePeerEv s.g i { p with evq := rest } e slow
         (commitPeer s i p.overflow rest true r.1 r.2.1, if r.2.2 then .err else .pev e)
   | .peerMsg i m slow =>
     match s.peers[i]? with
@@ -716,7 +758,7 @@ def step (s : State) (op : Op) : State × Res :=
       if p.wlen + k > p.wcap then (s, .bad)
       else ({ s with peers := setN s.peers i { p with wlen := p.wlen + k } }, .ok)
   | .wsReserve idx =>
-    match s.pieces[idx]? with
+    match (if s.hasMeta then s.pieces[idx]? else none) with
     | none => (s, .bad)
     | some pc =>
       match wsFind s idx pc (s.g.pieceChunks idx + 1) 0 with
@@ -765,12 +807,17 @@ def step (s : State) (op : Op) : State × Res :=
                     writers := setN s.writers w { wr with count := 0, isOpen := false } }, .ok)
       else ({ s with writers := setN s.writers w { wr with isOpen := false } }, .ok)
   | .finalise idx =>
-    match s.pieces[idx]? with
+    match (if s.hasMeta then s.pieces[idx]? else none) with
     | none => (s, .bad)
     | some pc =>
       if !pc.complete && pc.bits.all id then
         ({ s with pieces := setN s.pieces idx { pc with complete := true } }, .fin true)
       else (s, .fin false)
+  | .metaComplete =>
+    -- `gotMetadata` succeeded: `writePeers(PeerMetadataComplete)`, the counters exist from now on
+    if s.hasMeta then (s, .bad)
+    else if !needRoom s none 1 then ({ s with blocked := true }, .block)
+    else ({ s with hasMeta := true, peers := castMeta s.peers }, .ok)
 
 def run (s : State) : List Op → State
   | [] => s
@@ -868,7 +915,7 @@ def stepEmitted (s : State) (op : Op) (k : Nat) : List TorEv :=
       if !p.alive then [] else
       match p.evq with
       | [] => []
-      | e :: rest => (handlePeerEv s.g { p with evq := rest } e slow).2.1
+      | e :: rest => (handlePeerEv s.g i { p with evq := rest } e slow).2.1
   | .peerMsg i m slow =>
     if i ≠ k then [] else
     match s.peers[i]? with
